@@ -156,7 +156,12 @@ class RecordManager:
         # ServiceInfo could generate an un-needed query
         # because the data was not yet populated.
         if removes:
-            cache.async_remove_records(removes)
+            # A callback of the round above may have registered a listener with a question:
+            # the purge of expired records in async_add_listener can already have removed
+            # a record this datagram withdraws.
+            cache.async_remove_records(
+                [record for record in removes if cache.async_get_unique(record) is not None]
+            )
         if updates:
             self.async_updates_complete(new)
 
